@@ -23,10 +23,18 @@ func init() {
 
 func vpAPIBase() map[string]intrinsicFn {
 	return map[string]intrinsicFn{
-		"vpU8":           func(e *Engine, st *State, fn *ssa.Function, a []Value, s ssa.Instruction) []Outcome { return vpScalar(e, st, "u8", 8) },
-		"vpU16":          func(e *Engine, st *State, fn *ssa.Function, a []Value, s ssa.Instruction) []Outcome { return vpScalar(e, st, "u16", 16) },
-		"vpU32":          func(e *Engine, st *State, fn *ssa.Function, a []Value, s ssa.Instruction) []Outcome { return vpScalar(e, st, "u32", 32) },
-		"vpU64":          func(e *Engine, st *State, fn *ssa.Function, a []Value, s ssa.Instruction) []Outcome { return vpScalar(e, st, "u64", 64) },
+		"vpU8": func(e *Engine, st *State, fn *ssa.Function, a []Value, s ssa.Instruction) []Outcome {
+			return vpScalar(e, st, "u8", 8)
+		},
+		"vpU16": func(e *Engine, st *State, fn *ssa.Function, a []Value, s ssa.Instruction) []Outcome {
+			return vpScalar(e, st, "u16", 16)
+		},
+		"vpU32": func(e *Engine, st *State, fn *ssa.Function, a []Value, s ssa.Instruction) []Outcome {
+			return vpScalar(e, st, "u32", 32)
+		},
+		"vpU64": func(e *Engine, st *State, fn *ssa.Function, a []Value, s ssa.Instruction) []Outcome {
+			return vpScalar(e, st, "u64", 64)
+		},
 		"vpBool":         vpBool,
 		"vpInt":          vpInt,
 		"vpIntC":         vpIntC,
@@ -53,9 +61,11 @@ func vpAPIBase() map[string]intrinsicFn {
 		"vpMetric":       vpMetric,
 		"vpMetricMin":    vpMetricMin,
 		"vpLazyGo":       vpLazyGo,
-		"vpSymbolic":     func(e *Engine, st *State, fn *ssa.Function, a []Value, s ssa.Instruction) []Outcome { return one(st, e.tm.True) },
-		"vpAllocLimit":   vpAllocLimit,
-		"vpBlocked":      vpBlocked,
+		"vpSymbolic": func(e *Engine, st *State, fn *ssa.Function, a []Value, s ssa.Instruction) []Outcome {
+			return one(st, e.tm.True)
+		},
+		"vpAllocLimit": vpAllocLimit,
+		"vpBlocked":    vpBlocked,
 	}
 }
 
